@@ -179,6 +179,8 @@ def check_function(facts, fn, res, rule, nbparticles_field="nbParticles"):
                     if nm in ("insert", "copy", "copy_n", "memcpy", "memmove", "assign", "move", "fill", "fill_n"):
                         res.violation(rule, tbf.rel(facts.path_of(x)), fn["qname"], "bulk:%s@%d" % (x.get("name"), x["l"][1]), x["l"][1],
                                       "per-leaf values '%s' are moved in bulk (%s) in storage order; values must be staged and restored under the particle's original index, storage order changes when particles move" % (x.get("name"), nm))
+                    elif call is not None and helper_copy(facts, fn, lm, call, decls, res, rule):
+                        n += 1
                     else:
                         raise AnalysisBroken("%s: use of the per-leaf pointer array '%s' outside a recognised copy statement" % (facts.loc(x), x.get("name")))
             # allocation extent of the global objects captured by the lambda
@@ -196,6 +198,86 @@ def check_function(facts, fn, res, rule, nbparticles_field="nbParticles"):
             res.violation(rule + ".alloc", tbf.rel(facts.path_of(d)), fn["qname"], d["name"], d["l"][1],
                           "per-particle array '%s' is not allocated with one entry per particle (%s)" % (d["name"], nbparticles_field))
     return n
+
+
+_helper_done = {}
+
+
+def helper_copy(facts, fn, lm, call, decls, res, rule):
+    """the leaf visitor hands its arrays to a helper of the same class: the helper's copies are summarised by the copy-relation
+    engine and must relate DEST[IDX[p]][v] with LEAF[v][p] for the same p and v, p sweeping the leaf once"""
+    import sympy
+    import copyrel
+    key = (id(call),)
+    if key in _helper_done:
+        return _helper_done[key]
+    nm = tbf.callee_name(call)
+    args = tbf.call_args(call)
+    cands = [g for g in facts.methods_of(fn.get("cls")) if g["name"] == nm and tbf.body(g) is not None and len(g["params"]) == len(args)]
+    if len(cands) != 1:
+        _helper_done[key] = False
+        return False
+    g = cands[0]
+    N = sympy.Symbol("N", integer=True, positive=True)
+    bind = {}
+    roles = {}
+    for p_, a in zip(g["params"], args):
+        a0 = strip(a)
+        base = a0
+        if base.get("k") in ("CallExpr", "CXXMemberCallExpr") and tbf.callee_name(base) in ("get", "data") and tbf.call_base(base) is not None:
+            base = strip(tbf.call_base(base))
+        if base.get("k") == "DeclRefExpr" and base.get("did") in decls:
+            te = decl_extent(facts, fn, decls[base["did"]])
+            if te is not None and te[0][0][0] == "orig":
+                bind[p_["did"]] = copyrel.Obj("DEST", base["name"])
+                roles["DEST"] = (base, te)
+                continue
+        if a0.get("k") == "DeclRefExpr" and a0.get("did") == lm.indexes:
+            bind[p_["did"]] = copyrel.Obj("IDX", a0["name"])
+            continue
+        if a0.get("k") == "DeclRefExpr" and a0.get("did") in [q["did"] for q in lm.params[2:4]]:
+            bind[p_["did"]] = copyrel.Obj("LEAF", a0["name"])
+            roles["LEAF"] = (a0, type_extent([q for q in lm.params if q["did"] == a0["did"]][0].get("t", "")))
+            continue
+        if a0.get("k") in ("MemberExpr", "CXXDependentScopeMemberExpr") and a0.get("name") == "nbParticles" and kids(a0) and strip(kids(a0)[0]).get("did") == lm.header:
+            bind[p_["did"]] = N
+            continue
+        raise AnalysisBroken("%s: argument `%s` of the copy helper %s is not one of (per-particle array, original indexes, per-leaf rows, particle count)" % (facts.loc(a), facts.ntext(a)[:50], nm))
+    it = copyrel.Interp(facts, g, bind)
+    it.run(tbf.body(g))
+    if not it.out:
+        raise AnalysisBroken("%s: the copy helper %s copies nothing the engine recognises" % (facts.loc(call), nm))
+    f = tbf.rel(facts.path_of(g))
+    for ft in it.out:
+        d, sidx = ft.dest_obj, ft.src
+        gather = d.role == "DEST"
+        if gather:
+            didx = ft.dest_idx
+            if not (isinstance(sidx, copyrel.Load) and sidx.obj.role == "LEAF" and len(didx) == 2 and isinstance(didx[0], copyrel.Load) and didx[0].obj.role == "IDX"):
+                res.violation(rule, f, g["qname"], "shape@%d" % ft.node["l"][1], ft.node["l"][1], "the helper's copy `%s` does not relate one per-particle record (under its original index) with one per-leaf value" % facts.ntext(ft.node)[:80])
+                continue
+            p1, v1 = didx[0].idx[0], didx[1]
+            v2, p2 = sidx.idx
+        else:
+            if not (d.role == "LEAF" and len(ft.dest_idx) == 2 and isinstance(sidx, copyrel.Load) and sidx.obj.role == "DEST" and isinstance(sidx.idx[0], copyrel.Load)):
+                res.violation(rule, f, g["qname"], "shape@%d" % ft.node["l"][1], ft.node["l"][1], "the helper's copy `%s` does not relate one per-leaf value with one per-particle record" % facts.ntext(ft.node)[:80])
+                continue
+            v1, p1 = ft.dest_idx
+            p2, v2 = sidx.idx[0].idx[0], sidx.idx[1]
+        res.instance(rule, "%s via %s @%d" % (fn["qname"], nm, ft.node["l"][1]), facts.loc(ft.node),
+                     "%s[%s[%s]][%s] %s %s[%s][%s]" % ("DEST", "IDX", p1, v1, "<-" if gather else "->", "LEAF", v2, p2))
+        if sympy.simplify(p1 - p2) != 0:
+            res.violation(rule, f, g["qname"], "position@%d" % ft.node["l"][1], ft.node["l"][1],
+                          "the record written under the original index of the particle at leaf position `%s` receives the values stored at leaf position `%s`: "
+                          "entry i does not hold the values of the particle inserted at position i (leaves with more particles than one tile)" % (p1, p2))
+            continue
+        if sympy.simplify(v1 - v2) != 0:
+            res.violation(rule, f, g["qname"], "value@%d" % ft.node["l"][1], ft.node["l"][1], "value slot `%s` of the record receives value row `%s`" % (v1, v2))
+            continue
+        if not copyrel.position_sweeps(sympy.sympify(p1), ft.loops, N):
+            raise AnalysisBroken("%s: cannot show that leaf position `%s` sweeps [0, number of particles of the leaf) exactly once" % (facts.loc(ft.node), p1))
+    _helper_done[key] = True
+    return True
 
 
 def fmt(d):
